@@ -63,7 +63,36 @@ func drawAnyMapping(t *rapid.T, cl *caseLog) (gen.MapSpec, mapping.IndexMapping)
 		g = math.Nextafter(1, 2)
 	}
 	var off float64
-	switch rapid.IntRange(0, 9).Draw(t, "offclass") {
+	switch rapid.IntRange(0, 10).Draw(t, "offclass") {
+	case 10:
+		// an offset engineered (by bisection) so that a bin edge falls on the largest or the smallest indexable value, within
+		// the resolution of the offset: the highest (lowest) bin is then a sliver, or the range end sits at the very top
+		// (bottom) of its bin - where a bound on the range that is tight to the last ulp shows
+		off0 := rapid.Float64Range(-1, 1).Draw(t, "endoff0")
+		m0, err := gen.MapSpec{Kind: kind, Gamma: g, Offset: off0}.Build()
+		if err != nil {
+			t.Fatalf("constructor refused gamma=%v offset=%v: %v", g, off0, err)
+		}
+		end := m0.MaxIndexableValue()
+		if rapid.Bool().Draw(t, "endmin") {
+			end = gen.NextUp(m0.MinIndexableValue(), 1)
+		}
+		k0 := m0.Index(end)
+		dlo, dhi := 0.0, 1.0
+		for it := 0; it < 70 && gen.NextUp(dlo, 1) < dhi; it++ {
+			mid := dlo + (dhi-dlo)/2
+			mm, err := gen.MapSpec{Kind: kind, Gamma: g, Offset: off0 - mid}.Build()
+			if err != nil {
+				break
+			}
+			if mm.Index(end) == k0 {
+				dlo = mid
+			} else {
+				dhi = mid
+			}
+		}
+		off = off0 - rapid.SampledFrom([]float64{dlo, dhi, gen.NextUp(dlo, -1), gen.NextUp(dhi, 1), gen.NextUp(dlo, -3), gen.NextUp(dhi, 3)}).Draw(t, "endside")
+		cl.label("offset:engineered-edge-at-range-end")
 	case 9:
 		// an offset engineered so that, for some index i0, (i0 - offset)/multiplier - what the inverse of the index
 		// function is applied to - is an integer k or one of its float neighbours (the boundary between two binades of the
